@@ -376,10 +376,13 @@ impl ChunkInfo {
         let compressed_key = ContentKey::from_data(&compressed);
         let checksum = *compressed_key.as_bytes();
 
-        // Calculate decompressed data checksum
-        let decompressed = chunk.decompress(0).unwrap_or_else(|_| compressed.clone());
-        let decompressed_key = ContentKey::from_data(&decompressed);
-        let decompressed_checksum = Some(*decompressed_key.as_bytes());
+        // Calculate decompressed data checksum. A chunk that cannot be decoded here (an
+        // encrypted chunk: the key is not available) gets no checksum - written as zeros,
+        // which readers treat as "nothing to verify" - instead of a checksum of other bytes.
+        let decompressed_checksum = chunk
+            .decompress(0)
+            .ok()
+            .map(|decompressed| *ContentKey::from_data(&decompressed).as_bytes());
 
         Self {
             // Safe cast: BLTE chunks are limited to reasonable sizes
